@@ -13,7 +13,7 @@ WRAP_LD = "-Wl," + ",".join("--wrap=" + w for w in WRAPS)
 
 def build_encdrv(variant):
     extra = "-DVS_TSAN_ANNOTATE=1" if variant == "tsan" else ""
-    return vlib.cc_harness(variant, "encdrv_s", ["encdrv.c"], plain_sources=["sched.c"],
+    return vlib.cc_harness(variant, "encdrv_s", ["encdrv.c"], plain_sources=["sched.c"], deps=["param_fields.h"],
                            extra_ldflags=WRAP_LD, extra_cflags=extra)
 
 
